@@ -74,6 +74,16 @@ MapFail(P, v, k) ==
     /\ data'  = [x \in DOMAIN data |-> IF x \in P /\ Pos(x) < Pos(k) THEN v ELSE data[x]]
     /\ last'  = [op |-> "mapfail", on |-> P, v |-> v, k |-> k]
 
+(* Filter whose callback panics at key k (the caller recovers and goes on using the container): the entries before *)
+(* k that the callback rejected are gone, k and everything after it are what they were, and the container is as     *)
+(* consistent as after any other operation.                                                                          *)
+FilterPanic(P, k) ==
+    /\ Tick
+    /\ k \in DOMAIN data
+    /\ order' = SelectSeq(order, LAMBDA x : x \in P \/ Pos(x) >= Pos(k))
+    /\ data'  = [x \in {y \in DOMAIN data : y \in P \/ Pos(y) >= Pos(k)} |-> data[x]]
+    /\ last'  = [op |-> "filterpanic", keep |-> P, k |-> k]
+
 (* What a key is spelled like is not the container's business: the model's keys are abstract names, and every    *)
 (* behaviour is replayed with the keys spelled as named and as each row below spells them.  The rows hold what     *)
 (* a text written to JSON has to treat specially: the empty key, quotation mark and backslash, control characters  *)
@@ -93,6 +103,7 @@ Next == \/ \E k \in Keys, v \in Vals : Set(k, v)
         \/ \E k \in Keys : Delete(k)
         \/ \E P \in SUBSET Keys : Filter(P)
         \/ \E P \in SUBSET Keys, v \in Vals : MapOp(P, v)
+        \/ \E P \in {{}} \cup {Keys \ {x} : x \in Keys}, k \in Keys : FilterPanic(P, k)   \* (every subset by simulation)
         \/ \E v \in Vals, k \in Keys : MapFail(Keys, v, k)      \* (every key mapped up to the failing one; SimNext draws subsets)
 
 Spec == Init /\ [][Next]_vars
@@ -121,12 +132,13 @@ FindFirst(P) == LET hits == SelectSeq(order, LAMBDA x : x \in P)
 
 \* Next relation for `tlc -simulate`: the kind of operation is drawn first (TLC would otherwise pick uniformly among
 \* all action instances, and the 64 subsets of Filter and Map would crowd out Set and Delete)
-SimNext == LET kind == RandomElement({"set", "set", "set", "update", "delete", "delete", "filter", "map", "mapfail"}) IN
+SimNext == LET kind == RandomElement({"set", "set", "set", "update", "delete", "delete", "filter", "map", "mapfail", "filterpanic"}) IN
            CASE kind = "set"    -> \E k \in Keys, v \in Vals : Set(k, v)
              [] kind = "update" -> \E k \in Keys, v \in Vals : Update(k, v)
              [] kind = "delete" -> \E k \in Keys : Delete(k)
              [] kind = "filter" -> \E P \in SUBSET Keys : Cardinality(P) >= Cardinality(Keys) - 2 /\ Filter(P)
              [] kind = "mapfail" -> \E P \in SUBSET Keys, v \in Vals, k \in Keys : MapFail(P, v, k)
+             [] kind = "filterpanic" -> \E P \in SUBSET Keys, k \in Keys : FilterPanic(P, k)
              [] OTHER           -> \E P \in SUBSET Keys, v \in Vals : MapOp(P, v)
 SimSpec == Init /\ [][SimNext]_vars
 
